@@ -141,8 +141,8 @@ def simulate(
         )
     else:
         # work on a copy: the caller's state matrix and its options are left untouched
-        sm = init.copy()
-        sm.options.update(options)
+        # (copy() routes kvalue / tvalue to the attributes and the rest to the options)
+        sm = init.copy(**options)
 
     LOGGER.info(f"Initial state matrix: num. states: {sm.nstate}, shape: {sm.shape}")
 
